@@ -22,7 +22,9 @@ func MatchWildcardRegexp(query string, exact bool) *regexp.Regexp {
 	if exact {
 		return regexp.MustCompile(fmt.Sprintf("^%s$", regexpQuery))
 	}
-	// a non-exact query matches the path it names and everything beneath it, at a path element boundary
+	// a non-exact query matches the path it names and everything beneath it, at a path element boundary;
+	// the root "/" (a request naming nothing but its target) is above every path
+	regexpQuery = strings.TrimSuffix(regexpQuery, "/")
 	return regexp.MustCompile(fmt.Sprintf(`^%s($|/|\[)`, regexpQuery))
 }
 
